@@ -197,6 +197,10 @@ PROGRAMS = [
     # a quantifier body that also mentions a FREE symbol (inner memo keys must still depend on the tree)
     ('forall <x> in <v>: str(<x>) != str(<k>)',
      FORALL("x", top(sel_sym("<v>")), lambda t, env: truthy_all([sel_sym("<k>")], lambda k, x=None: S(env["x"]) != S(k))(t, {}))),
+    # slices with boundary values
+    ('len(<rec>[0:0]) == 0', truthy_all([sel_slice("<rec>", 0, 0)], lambda ns: len(ns) == 0)),
+    ('len(<rec>[2:0]) == 0', truthy_all([sel_slice("<rec>", 2, 0)], lambda ns: len(ns) == 0)),
+    ('len(<rec>[0:3:2]) == 2', truthy_all([lambda t: [list(n.children[0:3:2]) for n in nodes_of(t, "<rec>")]], lambda ns: len(ns) == 2)),
     ('any(str(v) == "5" for v in *<rec>..<v>) and int(<v>) >= 0',
      AND(EXISTS("x", top(sel_desc("<rec>", "<v>")), truthy_all([], lambda x: S(x) == "5")), truthy_all([sel_sym("<v>")], lambda v: I(v) >= 0))),
 ]
@@ -213,6 +217,30 @@ C_LAZY = CS_L[0]
 # (the spec reader cannot run inside a traced function); their caches are emptied before every use
 _FRESH = [load_with_constraints(GRAMMAR + "where " + TEXT + "\n")[1][0] for _ in range(2)]
 _fresh_i = [0]
+
+
+# C15: the constraint as printed by format_as_spec() and read back (None if the reader rejects the printed text;
+# those cases are handled by the probe in checks/C15.py)
+PRINTED_TEXT = C_EAGER.format_as_spec()
+try:
+    C_PRINTED = load_with_constraints(GRAMMAR + "where " + PRINTED_TEXT + "\n")[1][0]
+except Exception:
+    C_PRINTED = None
+
+
+def print_roundtrip(r1: str, r2: str) -> bool:
+    """
+    pre: 2 <= len(r1) <= 3 and len(r2) <= MAXR2 and len(r2) != 1
+    pre: all(c in ALPHA for c in r1) and all(c in ALPHA for c in r2)
+    post: _
+    """
+    exclude_known("print_roundtrip", r1=r1, r2=r2, PROG=PROG, TEXT=TEXT)
+    if C_PRINTED is None:
+        return False
+    tree = mk_tree(r1, r2)
+    clear_caches(C_EAGER)
+    clear_caches(C_PRINTED)
+    return C_EAGER.check(tree) == C_PRINTED.check(tree)
 
 
 def fresh():
